@@ -117,6 +117,9 @@ def gen_fiber(rng, uid, max_km, raman=False, allow_lumped=True):
     f['con_out'] = rng.choice([None, None, 0.5, 0.25, 1.0, 0])
     if rng.random() < 0.15:
         f['att_in'] = rng.choice([0, 1, 2.5, 0.5])
+    if rng.random() < 0.12:
+        # a parameter the export only carries when it is user-defined (library value 1.265e-15)
+        f['pmd_coef'] = rng.choice([3.0e-15, 0.8e-15, 2.0e-15])
     if raman:
         f['len'] = round(rng.uniform(40, min(110, max_km - 1)), 3)
         if f['con_out'] is None:
@@ -150,8 +153,10 @@ def gen_amp(rng, uid, power_mode, before_raman=False):
                         ('tilt_target', [0, -1]), ('out_voa', [0, 0.5, 3, None])):
             if rng.random() < 0.45:
                 op[k] = rng.choice(vals)
+    if rng.random() < 0.12:
+        op['in_voa'] = rng.choice([0, 0.5, 1, 2])      # input VOA, with or without the other settings
     if before_raman:
-        op['delta_p'] = rng.choice([0, 1, -1])     # see finding raman-target-power
+        op['delta_p'] = rng.choice([0, 1, -1])
     if op or rng.random() < 0.2:
         a['op'] = op
     return a
@@ -341,6 +346,8 @@ def el_json(e):
         p.update({'loss_coef': e['lc'], 'con_in': e['con_in'], 'con_out': e['con_out']})
         if 'att_in' in e:
             p['att_in'] = e['att_in']
+        if 'pmd_coef' in e:
+            p['pmd_coef'] = e['pmd_coef']
         if 'lumped' in e:
             p['lumped_losses'] = e['lumped']
         j = {'uid': e['uid'], 'type': 'RamanFiber' if e['k'] == 'R' else 'Fiber', 'type_variety': e['variety'], 'params': p}
